@@ -1,0 +1,61 @@
+// SPDX-FileCopyrightText: 2023 The Pion community <https://pion.ly>
+// SPDX-License-Identifier: MIT
+
+//go:build verif
+
+package rtp
+
+import (
+	"errors"
+	"io"
+)
+
+// VerifErrKind maps an error returned by this package to a small enum, so that the
+// verification harness (/verif) can compare error kinds without looking at error strings.
+func VerifErrKind(err error) string {
+	switch {
+	case err == nil:
+		return ""
+	case errors.Is(err, errHeaderSizeInsufficientForExtension):
+		return "shortExt"
+	case errors.Is(err, errHeaderSizeInsufficient):
+		return "short"
+	case errors.Is(err, errTooSmall):
+		return "tooSmall"
+	case errors.Is(err, errInvalidRTPPadding):
+		return "invalidPadding"
+	case errors.Is(err, io.ErrShortBuffer):
+		return "shortBuffer"
+	case errors.Is(err, errRFC8285OneByteHeaderIDRange), errors.Is(err, errRFC8285TwoByteHeaderIDRange),
+		errors.Is(err, errRFC3550HeaderIDRange):
+		return "idRange"
+	case errors.Is(err, errRFC8285OneByteHeaderSize), errors.Is(err, errRFC8285TwoByteHeaderSize):
+		return "size"
+	case errors.Is(err, errHeaderExtensionsNotEnabled):
+		return "notEnabled"
+	case errors.Is(err, errHeaderExtensionNotFound):
+		return "notFound"
+	default:
+		return "other"
+	}
+}
+
+// VerifExtensions returns the ids and payloads of h.Extensions in order (read-only view for
+// the verification harness; the public accessors only offer first-match lookup by id).
+func VerifExtensions(h *Header) (ids []uint8, payloads [][]byte) {
+	for _, e := range h.Extensions {
+		ids = append(ids, e.id)
+		payloads = append(payloads, e.payload)
+	}
+
+	return ids, payloads
+}
+
+// VerifSetExtensions replaces h.Extensions (used by the harness to construct headers that are
+// otherwise only reachable by decoding, e.g. duplicate ids).
+func VerifSetExtensions(h *Header, ids []uint8, payloads [][]byte) {
+	h.Extensions = nil
+	for i := range ids {
+		h.Extensions = append(h.Extensions, Extension{id: ids[i], payload: payloads[i]})
+	}
+}
